@@ -529,6 +529,38 @@ Next == \/ AddBase \/ AddLink1 \/ AddBuiltinLink \/ AddLink2 \/ AddDupBuiltin \/
         \/ ExecDef \/ ExecUse \/ ExecAct
 Spec == Init /\ [][Next]_vars
 
+\* ---- the symbol report: `exactly symbol FILE`, `exactly symbol FILE NAME`, `... NAME --ref` -----------------
+\* The case is parsed and its symbols validated (the same walk), nothing is executed.  An accepted case is reported:
+\* every user-defined symbol on a line of its own - in order of execution, with its type and the number of
+\* references to it (every written occurrence counts; builtin symbols are not listed) -; for one symbol, the
+\* instruction that defines it; with --ref, every reference to it in order of execution.  A rejected case gives
+\* the error (exit code, identifier, message) the run of the case gives.
+\* How many times the text of a shape / context writes each of its reference slots (the context "data" writes its
+\* symbol twice: inside a string and as an element).
+Occ(sh) == IF sh = "data" THEN <<2>> ELSE [k \in 1..Len(Restr(sh)) |-> 1]
+\* The text of a use in these contexts is a definition of a fresh symbol, named after the instruction.
+UseDefType(c) == CASE c = "fc" -> "files-condition" [] c = "fm" -> "file-matcher" [] c = "fsm" -> "files-matcher"
+                   [] OTHER -> "-"
+Defines(i) == prog[i].op = "def" \/ (prog[i].op = "use" /\ UseDefType(prog[i].shape) # "-")
+RECURSIVE SortExec(_)
+SortExec(S) == IF S = {} THEN <<>>
+               ELSE LET m == CHOOSE j \in S : \A k \in S : k = j \/ ExecLess(j, k) IN <<m>> \o SortExec(S \ {m})
+ExecSeq == SortExec(1..Len(prog))
+RECURSIVE Rep(_, _), OccIn(_, _, _), RefSeqFrom(_, _)
+Rep(x, c) == IF c = 0 THEN <<>> ELSE <<x>> \o Rep(x, c - 1)
+\* the occurrences of n written by instruction i, from slot k on
+OccIn(n, i, k) == IF k > Len(prog[i].refs) THEN <<>>
+                  ELSE (IF prog[i].refs[k] = n THEN Rep(i, Occ(prog[i].shape)[k]) ELSE <<>>) \o OccIn(n, i, k + 1)
+RefSeqFrom(n, sq) == IF sq = <<>> THEN <<>> ELSE OccIn(n, Head(sq), 1) \o RefSeqFrom(n, Tail(sq))
+RefSeq(n) == RefSeqFrom(n, ExecSeq)        \* the instructions that refer to n, one entry per written occurrence
+DefSeq == SelectSeq(ExecSeq, LAMBDA i : Defines(i))
+ReportLine(i) == [i |-> i,
+                  name |-> IF prog[i].op = "def" THEN prog[i].name ELSE "-",      \* "-": the fresh symbol of a use
+                  type |-> IF prog[i].op = "def" THEN prog[i].type ELSE UseDefType(prog[i].shape),
+                  nrefs |-> IF prog[i].op = "def" THEN Len(RefSeq(prog[i].name)) ELSE 0]
+Report == [j \in 1..Len(DefSeq) |-> ReportLine(DefSeq[j])]
+RefsOf == [j \in 1..Len(DefSeq) |-> IF prog[DefSeq[j]].op = "def" THEN RefSeq(prog[DefSeq[j]].name) ELSE <<>>]
+
 \* ---- the clauses of the property ---------------------------------------------------------------------
 IsPrefix(a, b) == Len(a) <= Len(b) /\ SubSeq(b, 1, Len(a)) = a
 
@@ -599,4 +631,22 @@ SubstitutionShape ==
         /\ (t = "list") => /\ inner = Join(els)
                            /\ Len(inner) = Len(Flat(els)) + (IF els = <<>> THEN 0 ELSE Len(els) - 1)
         /\ (t = "path") => inner[1] \in {"<tmp>", "<act>"}
+\* the report of an accepted case lists exactly what the validation walk put into its table, in that order; every
+\* written reference is counted for exactly one symbol (or is a reference to a builtin); a symbol with no reference
+\* is mentioned by no instruction
+RECURSIVE SumSeq(_)
+SumSeq(q) == IF q = <<>> THEN 0 ELSE Head(q) + SumSeq(Tail(q))
+Written(i) == SumSeq(Occ(prog[i].shape))
+BuiltinRefs(i) == SumSeq([k \in 1..Len(prog[i].refs) |-> IF prog[i].refs[k] \in Builtins THEN Occ(prog[i].shape)[k] ELSE 0])
+ReportMatchesWalk ==
+  (Done /\ outcome = "PASS") =>
+     /\ [j \in 1..Len(SelectSeq(vtab, LAMBDA e : e.idx # 0)) |-> SelectSeq(vtab, LAMBDA e : e.idx # 0)[j].idx]
+           = SelectSeq(DefSeq, LAMBDA i : prog[i].op = "def")
+     /\ SumSeq([j \in 1..Len(Report) |-> Report[j].nrefs])
+           = SumSeq([i \in 1..Len(prog) |-> Written(i) - BuiltinRefs(i)])
+     /\ \A j \in 1..Len(Report) :
+           (Report[j].nrefs = 0) <=> (\A i \in 1..Len(prog) : \A k \in 1..Len(prog[i].refs) : prog[i].refs[k] # Report[j].name)
+     /\ \A j \in 1..Len(Report) : \A a \in 1..Len(RefsOf[j]) :
+           /\ ExecLess(DefSeq[j], RefsOf[j][a])                       \* referred to only after its definition
+           /\ (a > 1 => (RefsOf[j][a - 1] = RefsOf[j][a] \/ ExecLess(RefsOf[j][a - 1], RefsOf[j][a])))
 =============================================================================
